@@ -143,6 +143,9 @@ pub struct Sh {
 	in_compaction: Cell<u32>,
 	in_flush: Cell<u32>,
 	in_checkpoint: Cell<bool>,
+	/// finite retention only: how far the simulated clock was moved forward to absorb the
+	/// drift of the store's logical clock; plan timestamps are shifted by the same amount
+	drift: Cell<u64>,
 	closing: Cell<bool>,
 }
 
@@ -290,6 +293,7 @@ impl Sh {
 			in_compaction: Cell::new(0),
 			in_flush: Cell::new(0),
 			in_checkpoint: Cell::new(false),
+			drift: Cell::new(0),
 			closing: Cell::new(false),
 		})
 	}
@@ -1281,7 +1285,7 @@ impl Sh {
 			Step::Set { k, v, ts, .. } => {
 				let key = self.key(*k);
 				let val = value_bytes(v);
-				self.do_write(act, ai, Write { key, kind: Kind::Set, value: Some(val), ts: ts.map(abs_ts) });
+				self.do_write(act, ai, Write { key, kind: Kind::Set, value: Some(val), ts: ts.map(|t| abs_ts(t) + self.drift.get()) });
 			}
 			Step::Replace { k, v, .. } => {
 				let key = self.key(*k);
@@ -1290,11 +1294,11 @@ impl Sh {
 			}
 			Step::Delete { k, ts, .. } => {
 				let key = self.key(*k);
-				self.do_write(act, ai, Write { key, kind: Kind::Delete, value: None, ts: ts.map(abs_ts) });
+				self.do_write(act, ai, Write { key, kind: Kind::Delete, value: None, ts: ts.map(|t| abs_ts(t) + self.drift.get()) });
 			}
 			Step::SoftDelete { k, ts, .. } => {
 				let key = self.key(*k);
-				self.do_write(act, ai, Write { key, kind: Kind::SoftDelete, value: None, ts: ts.map(abs_ts) });
+				self.do_write(act, ai, Write { key, kind: Kind::SoftDelete, value: None, ts: ts.map(|t| abs_ts(t) + self.drift.get()) });
 			}
 			Step::Get { k, .. } => {
 				let key = self.key(*k);
@@ -1469,7 +1473,7 @@ impl Sh {
 					if !tm.closed && tm.mode != ModeS::WriteOnly && tm.writes.is_empty() && self.plan.opts.versioning {
 						self.stats.borrow_mut().reads += 1;
 						let m = self.model.borrow();
-						let ts = &abs_ts(*ts);
+						let ts = &(abs_ts(*ts) + self.drift.get());
 						let mut want = m.get_at(&key, *ts, tm.horizon);
 						let retention = self.plan.opts.retention_ns;
 						if retention > 0 {
@@ -1524,7 +1528,7 @@ impl Sh {
 					if !tm.closed && tm.mode != ModeS::WriteOnly && tm.writes.is_empty() && self.plan.opts.versioning {
 						let (lo_b, hi_b) = (self.key(*lo), self.key(*hi));
 						if lo_b <= hi_b {
-							self.history_check(txn, tm, ai, &lo_b, &hi_b, *tomb, ts_range.map(|(a, b)| (abs_ts(a), abs_ts(b))), *limit, *rev);
+							self.history_check(txn, tm, ai, &lo_b, &hi_b, *tomb, ts_range.map(|(a, b)| (abs_ts(a) + self.drift.get(), abs_ts(b) + self.drift.get())), *limit, *rev);
 						}
 					}
 				}
@@ -1588,6 +1592,20 @@ impl Sh {
 			None
 		};
 		txn.set_durability(if sync { Durability::Immediate } else { Durability::Eventual });
+		// With finite retention every compaction reads the store's strictly monotonic logical
+		// clock once per version while simulated time stands still, so that clock runs ahead of
+		// the simulated one - and a commit would be stamped with the store's reading, not with
+		// simulated time. Absorb the drift first: then the commit's reading IS simulated time.
+		if self.plan.opts.versioning && self.plan.opts.retention_ns > 0 {
+			if let Some(t) = self.tree.borrow().as_ref() {
+				let store_now = t.verif_clock_now();
+				let sim_now = ip::now();
+				if store_now > sim_now {
+					ip::set_now(store_now + 1);
+					self.drift.set(self.drift.get() + store_now + 1 - sim_now);
+				}
+			}
+		}
 		let commit_ts = ip::advance_clock(1000);
 		self.stats.borrow_mut().sim_time_ns += 1000;
 		if exp.is_none() && !tm.writes.is_empty() {
